@@ -1,7 +1,7 @@
 PROP = {
     "title": "XML -> Map -> XML -> Map is a fixed point; re-encoded XML is well formed",
     "run_modules": ["RunXml2"],
-    "n": {"quick": 650, "thorough": 8000},
+    "n": {"quick": 650, "thorough": 6000},
     "shards": {"quick": 16, "thorough": 64},
     "level": "proof",
     "technique": "Coq models of xmlToMapParser/cast (Model/XmlDec.v) and of Map.Xml / Map.XmlIndent (Model/XmlEnc.v) + tokenizer specification "
@@ -11,6 +11,9 @@ PROP = {
     "assumptions": XML_ASSUME + [
         "toks_of_items (Spec/Items.v) is the specification of what encoding/xml's tokenizer returns on the encoders' output; it is compared "
         "with the real token stream of the real output on every run (XToks cases)",
+        "pf_hyps (Proofs/C02Cast.v; a named hypothesis of xml_fixed_point, used only when the cast argument is true): for every float64 f the cast "
+        "produced, ParseFloat(%v text of f) == f, that text consists of the characters 0-9 + - . e E or is NaN/+Inf/-Inf, and ParseFloat "
+        "rejects \"true\" and \"false\"; "
         "print/parse round trip of floats: strconv.ParseFloat(fmt.Sprintf(\"%v\", f), 64) == f for every float64 the cast produced "
         "(checked by the harness on every float leaf of every decoded Map; a failure is reported as violation key assumption-parsefloat)",
     ],
